@@ -121,6 +121,12 @@ def tsub(st, a, b):
     """term a - b if expressible"""
     if a is None or b is None:
         return None
+    if a[0] == "s" and a[1] in st.exprs and st.exprs[a[1]][0] == "add":
+        _, x, y = st.exprs[a[1]]
+        if x == b:
+            return ("c", y[1] + a[2]) if y[0] == "c" else ("s", y[1], y[2] + a[2])
+        if y == b:
+            return ("c", x[1] + a[2]) if x[0] == "c" else ("s", x[1], x[2] + a[2])
     if b[0] == "c":
         return ("c", a[1] - b[1]) if a[0] == "c" else ("s", a[1], a[2] - b[1])
     if a[0] == "s" and a[1] == b[1]:
@@ -179,6 +185,8 @@ def apply(an, st, t, args, dkey, dty, sid):
                 if e is not None and s is not None:
                     ie, is_ = st.itv_term(e), st.itv_term(s)
                     st.syms[lsid] = imeet(st.syms[lsid], (max(0, ie[0] - is_[1]), ie[1] - is_[0]))
+                    if e[0] == "s" and s[0] == "s":
+                        st.exprs[lsid] = ("sub", e, s)
             _set(an, st, dkey, v)
             return HANDLED
         _set(an, st, dkey, V(ty=dty))
@@ -414,6 +422,46 @@ def apply(an, st, t, args, dkey, dty, sid):
             if s_ is not None and e_ is not None:
                 v.cond = ("And", ("Ge", x, s_), ("Lt", x, e_))
         _set(an, st, dkey, v)
+        return HANDLED
+    # ---- std::io::Read contract: Ok(n) => n <= buf.len() --------------------------------------------------------------------------
+    if m(r"^std::io::Read::read$|as std::io::Read>::read$") and len(args) == 2:
+        st.kill_prefix(dkey)
+        pk = _pointee_key(an, st, t, 0, args)
+        if pk and args[0].is_mut:
+            st.kill_prefix(pk)
+        lt = _len_of(an, st, t, 1, args, sid)
+        psid = sid + "#n"
+        hi = st.itv_term(lt)[1] if lt is not None else (1 << 63) - 1
+        st.syms[psid] = (0, hi)
+        st.vals["(%s as Ok).0" % dkey] = V(ty="usize", sym=(psid, 0))
+        if lt is not None and lt[0] == "s":
+            st.diffs[(psid, lt[1])] = lt[2]
+        return HANDLED
+    # ---- operator traits on (references to) primitive integers ------------------------------------------------------------------
+    mo = None
+    for n in names:
+        mo = mo or re.match(r"^<&?(?:'\w+ )?(u8|u16|u32|u64|u128|usize|i8|i16|i32|i64|i128|isize) as std::ops::(Shr|Shl|BitAnd|BitOr|BitXor|Add|Sub|Mul|Div|Rem)<&?(?:'\w+ )?(\w+)>>::\w+$", n)
+    if mo and len(args) == 2:
+        ity, opn = mo.group(1), mo.group(2)
+
+        def deref_val(i):
+            a = args[i]
+            if (t["arg_tys"][i] or "").startswith("&"):
+                pk = _pointee_key(an, st, t, i, args)
+                v = st.vals.get(pk) if pk else None
+                if v is None:
+                    v = an.ensure_sym(st, an.top_for(re.sub(r"^&('\w+ )?(mut )?", "", t["arg_tys"][i]), sid + "d%d" % i), sid)
+                return v
+            return a
+        a, b = deref_val(0), deref_val(1)
+        res = an.arith(st, opn, a, b, ity, sid + "op")
+        if res is not None:
+            it = st.itv(res)
+            if not fits(it, ity):
+                res = _fresh_int(an, st, ity, sid + "w", ty_range(ity))
+            else:
+                res.ty = ity
+        _set(an, st, dkey, res)
         return HANDLED
     # ---- char / misc --------------------------------------------------------------------------------------------------------------
     if m(r"^std::iter::Iterator::(rev|map|filter|filter_map|enumerate|zip|take_while|skip|take|chain|flatten|flat_map|peekable|copied|cloned|step_by|skip_while|fuse|inspect|scan)$"):
